@@ -700,7 +700,7 @@ def unique_const(st, simple=False):
       leaf = const(pick)
   else:
     leaf = const('w%d' % i)
-  if simple or rng.random() < 0.6:
+  if simple or rng.random() < 0.7:
     return leaf
   shape = rng.choice(['dict', 'list', 'any2', 'inner', 'nested'])
   if shape == 'dict':
@@ -744,7 +744,7 @@ def render_space(sp, st, depth=0):
                                         if rng.random() < 0.5 else [])))
     else:
       slots.append(tlist([unique_const(st, True), p]))
-  for _ in range(rng.choice([0, 0, 1, 2])):
+  for _ in range(rng.choice([0, 0, 0, 1, 2]) if depth == 0 else rng.choice([0, 0, 0, 1])):
     slots.insert(rng.randrange(len(slots) + 1), unique_const(st))
   if shape == 'list':
     return tlist(slots)
